@@ -1890,9 +1890,19 @@ def rule_position_token(prog):
         if not (kinds - {"Comment"}):
             continue
         blind = tests_comment(b["body"], c)
-        positional = any((x.get("k") == "MethodCall" and x["m"] in ("checked_sub", "last", "get", "nth", "nth_back", "next_back")) or
-                         (x.get("k") == "Binary" and x["op"] == "-" and hir.lit_value(hir.strip(x["r"])) is not None) or x.get("k") == "Index"
-                         for x in hir.nodes_deep(prog, b["body"], 1, crate=c, values=True))
+        # the predecessor by position: `index - 1`, `index.checked_sub(1)`, or the last element of `tokens[..index]`
+        idx_ids = {p_["id"] for p_ in b["params"] if p_.get("k") == "Binding" and c.tstr(p_.get("bt")) == "usize"}
+
+        def on_index(e):
+            return any((hir.path_local(y) or {}).get("id") in idx_ids for y in hir.nodes(e))
+        deep = list(hir.nodes_deep(prog, b["body"], 1, crate=c, values=True))
+        takes_last = any(x.get("k") == "MethodCall" and x["m"] in ("last", "next_back", "split_last") for x in deep)
+        positional = any(
+            (x.get("k") == "MethodCall" and x["m"] == "checked_sub" and on_index(x["recv"])) or
+            (x.get("k") == "Binary" and x["op"] == "-" and str(hir.lit_value(hir.strip(x["r"]))) == "1" and on_index(x["l"])) or
+            (takes_last and x.get("k") == "Index" and hir.strip(x["idx"]).get("k") == "Struct" and "RangeTo" in (hir.strip(x["idx"]).get("adt") or "")
+             and on_index(x["idx"]))
+            for x in deep)
         out.add(b["d"], "a neighbouring token that classifies an identifier is picked comment-blind", True if blind else (False if positional else None),
                 c.loc(b["sp"]), "the function decides by the kind of a token next to `index` (%s) and %s" % (
                     sorted(kinds - {"Comment"})[:6], "skips comments on the way" if blind else
